@@ -22,12 +22,14 @@ def pre(res):
 def specs(tier):
     import gridlab
 
-    ex = ["beta", "bpsign", "regions", "meshmeta"]
+    ex = ["beta", "bpsign", "regions", "meshmeta", "gradpsi"]
     S = [gridlab.tokamak_spec("lsn", fpol="linear", extract=ex),                       # orthogonal, psi decreasing outwards (bpsign=-1)
          gridlab.tokamak_spec("ldn", fpol="const", extract=ex),                        # orthogonal, bpsign=+1
          gridlab.tokamak_spec("cdn", fpol="linear", options={"orthogonal": False}, extract=ex),  # non-orthogonal, bpsign=-1
          gridlab.tokamak_spec("ldn", fpol="linear", options={"orthogonal": False}, extract=ex),  # non-orthogonal, bpsign=+1
-         gridlab.circular_spec(extract=ex)]
+         gridlab.circular_spec(extract=ex),
+         gridlab.circular_spec(options={"number_of_processors": 1, "R0": 2.3, "B0": 3.2, "q_coefficients": [1.5, 2.0],
+                                        "r_inner": 0.3, "r_outer": 0.9, "nx": 5, "ny": 12}, extract=ex)]
     if tier == "thorough":
         S += [gridlab.tokamak_spec("usn", fpol="negconst", extract=ex),
               gridlab.tokamak_spec("udn", fpol="const", extract=ex),
@@ -41,8 +43,9 @@ def specs(tier):
 
 def grid_name(g):
     s = g["spec"]
-    return "%s%s%s" % (s.get("geometry", "circular"), "" if s.get("options", {}).get("orthogonal", True) else "-nonorth",
-                       "" if s.get("psi_sign", 1.0) > 0 else "-psineg")
+    q = s.get("options", {}).get("q_coefficients")
+    return "%s%s%s%s" % (s.get("geometry", "circular"), "" if s.get("options", {}).get("orthogonal", True) else "-nonorth",
+                         "" if s.get("psi_sign", 1.0) > 0 else "-psineg", "-q%s" % "_".join(str(c) for c in q) if q else "")
 
 
 def loc_arrays(v, name, loc):
@@ -93,6 +96,23 @@ def oracle_grid(res, g):
         c2 = np.abs(A["g_33"] - R ** 2) / R ** 2
         if np.nanmax(np.where(ok, c1, 0.0)) > 1e-12 or np.nanmax(np.where(ok, c2, 0.0)) > 1e-12:
             bad.append(("closed:%s" % loc, "g11 != (R Bp)^2 or g_33 != R^2 at %s" % loc))
+        # dx is d(psi), so the displacement per unit dx across the surfaces is 1/|grad psi|: g11 = |grad psi|^2 with the gradient taken
+        # by differencing the equilibrium's psi(R, Z) itself (no use of Bp_R / Bp_Z, no truncation in the cell size)
+        gp = g["extras"].get("gradpsi", {}).get(loc)
+        if gp is not None:
+            # the file holds the lower faces only: drop the last x-face / y-face of the mesh arrays
+            sh = A["g11"].shape
+            gr2 = (gp["psiR"] ** 2 + gp["psiZ"] ** 2)[:sh[0], :sh[1]]
+            with np.errstate(all="ignore"):
+                okg = ok & np.isfinite(gr2) & (gr2 > 1e-6 * np.nanmax(gr2))
+                eg = np.abs(A["g11"] / gr2 - 1.0)
+            if okg.any():
+                wg = float(np.nanmax(np.where(okg, eg, 0.0)))
+                res.extra.setdefault("g11_vs_gradpsi", {}).setdefault(name, {})[loc] = wg
+                if wg > 1e-5:
+                    i = np.unravel_index(np.nanargmax(np.where(okg, eg, 0.0)), eg.shape)
+                    bad.append(("g11-gradpsi:%s" % loc, "g11 differs from |grad psi|^2 (finite differences of the equilibrium's psi), i.e. g_11 from the "
+                                "displacement per unit dx across the flux surfaces, by %.3g (relative) at %s %s" % (wg, loc, i)))
         if orth:
             for c in ("g12", "g13", "g_12", "g_13"):
                 if np.nanmax(np.abs(np.where(ok, A[c], 0.0))) != 0.0:
